@@ -229,14 +229,16 @@ def l5(h):
 
 
 @harness('C14/L6.constructor-inputs', functions=[FW + 'WMM.__init__', FW + 'WMM.magnetic_field'], max_paths=8,
-         bounds='place (45, 60) and (0, 0); height symbolic in [0, 100] km (the value 0 is a branch of the constructor and is explored)')
+         bounds='place (45, 60) and (0, 0); height symbolic in [-1, 100] km (the value 0 is a branch of the constructor and is explored)')
 def l6(h):
     """the constructor hands latitude / longitude / height to the synthesis unchanged, including the values 0"""
     h.definedness = 'assume'
-    hs = h.real('hgt', 0.0, 100.0)
+    hs = h.real('hgt', -1.0, 100.0)
     for lat, lon, hgt in ((45.0, 60.0, hs), (0.0, 0.0, hs), (45.0, 60.0, 0.0)):
         ref = WMM(date=2022.5, latitude=12.0, longitude=34.0)
         ref.magnetic_field(lat, lon, hgt, date=2022.5)
+        h.check(f'({lat:g}, {lon:g}): the place handed to geodetic2spherical is the caller\'s (latitude, longitude, height; -1 km <= h)',
+                h.eq(np.array([ref.latitude, ref.longitude, ref.height]), np.array([lat, lon, hgt])))
         c = WMM(date=2022.5, latitude=lat, longitude=lon, height=hgt)
         if c.X is None:
             h.check(f'constructor at ({lat:g}, {lon:g}) computed the elements', h.false())
